@@ -209,7 +209,8 @@ def ds_random_body(ctx: Ctx, p: dict) -> None:
 # ---------------------------------------------------------------------------------------------------------------
 IN_VIOLATIONS = ["L:img-unreadable", "R:img-unreadable", "L:nodata-float", "R:nodata-str", "L:mask-size", "R:mask-size",
                  "L:classif-size", "R:segm-size", "L:mask-unreadable", "disp:max<min", "disp:one-band-grid", "disp:grid-size",
-                 "disp:right-list", "disp:right-grid-with-left-list", "disp:len3", "disp:len1", "R:img-size", "disp:missing",
+                 "disp:right-list", "disp:right-grid-with-left-list", "disp:right-grid-inverted", "disp:right-grid-size",
+                 "disp:right-grid-one-band", "disp:len3", "disp:len1", "R:img-size", "disp:missing",
                  "disp:float"]
 
 
@@ -229,6 +230,9 @@ def write_base(d, cls):
     lo = rng.randint(-3, 1, (H, W))
     f["grid"] = files.write_tiff(os.path.join(d, "grid.tif"), np.stack([lo, lo + rng.randint(0, 3, (H, W))]), dtype="float32")
     f["rgrid"] = files.write_tiff(os.path.join(d, "rgrid.tif"), np.stack([-lo - 2, -lo]), dtype="float32")
+    bad = np.stack([-lo - 2, -lo]).astype(np.float32)
+    bad[0, 2, 3] = bad[1, 2, 3] + 1  # min > max at one pixel
+    f["rgrid_inverted"] = files.write_tiff(os.path.join(d, "rgrid_inverted.tif"), bad, dtype="float32")
     f["small"] = files.write_tiff(os.path.join(d, "small.tif"), np.zeros((H - 1, W), dtype=np.int16), dtype="int16")
     f["small_img"] = files.write_tiff(os.path.join(d, "small_img.tif"), np.zeros((nb, H, W - 1), dtype=np.float32), descriptions=desc)
     f["grid1"] = files.write_tiff(os.path.join(d, "grid1.tif"), lo.astype(np.float32))
@@ -289,6 +293,11 @@ def apply_in(inp, f, v, cls):
     elif v == "disp:right-grid-with-left-list":
         inp["left"]["disp"] = [-2, 2]
         inp["right"]["disp"] = f["rgrid"]
+    elif v in ("disp:right-grid-inverted", "disp:right-grid-size", "disp:right-grid-one-band"):
+        # left and right grids, the RIGHT one malformed
+        inp["left"]["disp"] = f["grid"]
+        inp["right"]["disp"] = {"disp:right-grid-inverted": f["rgrid_inverted"], "disp:right-grid-size": f["grid_small"],
+                                "disp:right-grid-one-band": f["grid1"]}[v]
     elif v == "disp:len3":
         inp["left"]["disp"] = [-2, 0, 2]
         inp["right"].pop("disp", None)
@@ -304,6 +313,7 @@ def apply_in(inp, f, v, cls):
 
 # violations that overwrite the same field: the later one wins, the earlier is cancelled
 DISP_EDITS = {"disp:max<min", "disp:one-band-grid", "disp:grid-size", "disp:right-list", "disp:right-grid-with-left-list",
+              "disp:right-grid-inverted", "disp:right-grid-size", "disp:right-grid-one-band",
               "disp:len3", "disp:len1", "disp:missing", "disp:float"}
 
 
